@@ -28,7 +28,7 @@ CONF = {
                 thorough=dict(checks=0, shards=0, stages=["c05"], staged_replay=True, batches=8, defs=120, inputs=300, timeout=3000, min_evaluations=100)),
     "C14": dict(quick=dict(checks=0, shards=0, stages=["c14"], staged_replay=True, batches=1, grammars=200, timeout=1200, min_evaluations=50),
                 thorough=dict(checks=0, shards=0, stages=["c14"], staged_replay=True, batches=10, grammars=400, timeout=3000, min_evaluations=50)),
-    "C06": tiers(3000, 4, 40000, 12, qtimeout=900),
+    "C06": tiers(3000, 4, 20000, 12, qtimeout=900, t_stages=["fuzz"], t_fuzztime="120s"),
     "C15": tiers(1500, 4, 20000, 12),
     "C09": dict(race=True, quick=dict(checks=100, shards=4, timeout=900), thorough=dict(checks=1500, shards=8, timeout=3000)),
     "C10": tiers(2500, 4, 40000, 12),
